@@ -121,7 +121,8 @@ class Report:
         'wall_s': round(time.time() - self.t0, 2),
         'violations': self.violations,
     }
-    with open(os.path.join(EVIDENCE, '%s.json' % self.pid), 'w') as f:
+    name = '%s.replay.json' % self.pid if os.environ.get('VERIF_REPLAY') else '%s.json' % self.pid
+    with open(os.path.join(EVIDENCE, name), 'w') as f:
       json.dump(ev, f, indent=1, sort_keys=True, ensure_ascii=False, default=str)
       f.write('\n')
     return 1 if self.violations else 0
